@@ -6,7 +6,7 @@ known-findings list, writes evidence/<id>.json and prints the verdict lines.
 
 exit 0  held on everything explored (KNOWN-FINDING lines for listed mechanisms observed)
 exit 1  VIOLATION property=<id> replay=<path>   for each distinct unlisted violation
-exit 2  INCONCLUSIVE property=<id> reason=...    deciding monitor never reached / more than 3 % of the cases timed out
+exit 2  INCONCLUSIVE property=<id> reason=...    deciding monitor never reached / more than 10 % of the cases timed out (failed batches are retried once first)
 """
 import argparse
 import importlib
@@ -122,9 +122,19 @@ def main(argv=None):
     import shutil
     shutil.rmtree(os.path.join(common.REPLAY_DIR, prop), ignore_errors=True)
     plan = mod.plan(a.tier, seed, a.scale)
-    timeout = getattr(mod, "BATCH_TIMEOUT", {"quick": 420, "thorough": 1500})[a.tier]
+    # generous wall-clock bounds (5-10x what an idle 16-core machine needs): a firing bound is "inconclusive", and a
+    # batch that hit it - or whose worker died - is run once more, alone, before it is counted as such
+    timeout = getattr(mod, "BATCH_TIMEOUT", {"quick": 1200, "thorough": 3600})[a.tier]
     with ThreadPoolExecutor(max_workers=a.jobs) as ex:
         results = list(ex.map(lambda s: run_one(prop, s, timeout), plan))
+    retried = 0
+    for i, r in enumerate(results):
+        if "_failed" in r and retried < 4:
+            retried += 1
+            r2 = run_one(prop, r["_spec"], timeout)
+            if "_failed" not in r2:
+                r2.setdefault("notes", []).append({"batch_retried_after": r["_failed"][:200]})
+                results[i] = r2
     m = merge(results)
 
     known = findings.load()
@@ -165,7 +175,7 @@ def main(argv=None):
     total = m["cases"] + m["inconclusive"]
     if total == 0 or m["cases"] == 0:
         reasons.append("no-case-completed")
-    elif m["inconclusive"] > 0.03 * total and m["inconclusive"] > 2:
+    elif m["inconclusive"] > 0.10 * total and m["inconclusive"] > 2:
         reasons.append("inconclusive-share=%d/%d" % (m["inconclusive"], total))
     for cname in getattr(mod, "DECIDING_COUNTERS", []):
         if m["counters"].get(cname, 0) == 0:
